@@ -335,6 +335,9 @@ func c19CheckDecision(c *C19Case, rec *Rec, scen string, out *cliOut, sLines, vL
 		chk := ref.NewRUP(c.CNF, c.N)
 		empty := false
 		for i, l := range other {
+			if f := strings.Fields(l); len(f) > 0 && !isIntToken(f[0]) {
+				continue // comment-like line inside the certificate (e.g. deletion information): ignored, as certificate checkers do
+			}
 			cl, ok := parseCertLine(l)
 			if !ok {
 				rec.Viol(scen, "cli(certificate)", "format", "line %q of the output is neither a comment, an answer nor a clause", l)
